@@ -243,6 +243,12 @@ func (s *aggqSkel) calls(e ast.Node) []string {
 				out = append(out, "panic")
 			case aggqSkelIgnoredCallee(name):
 			default:
+				// (round 4) opening a file through an afero.Fs: `Create(p)` and `OpenFile(p, flags, perm)` are the same
+				// operation; the flags are a regenerated fact of their own (phoutOpenFlags)
+				if recv, isOpen := s.aggqFsOpenCall(x); isOpen {
+					out = append(out, recv+".open")
+					return
+				}
 				out = append(out, s.csrc(x.Fun)+s.ctxArgs(x))
 			}
 			return
@@ -476,6 +482,13 @@ func (s *aggqSkel) stmt(st ast.Stmt) []string {
 				}
 				return true
 			})
+			if c, isCall := r.(*ast.CallExpr); isCall {
+				// (round 4) a file opened through an afero.Fs: flags and permission are regenerated facts, not text
+				if recv, isOpen := s.aggqFsOpenCall(c); isOpen {
+					rs = append(rs, recv+".open")
+					continue
+				}
+			}
 			rs = append(rs, s.csrc(r))
 			for _, u := range undo {
 				u.lit.Value = u.val
@@ -622,19 +635,12 @@ func aggqExtra(t *tr) string {
 		p := load("github.com/yandex/pandora/core/datasink")
 		t2 := &tr{pkg: p, known: map[string]string{}}
 		aggqEmit(&b, t2, "fileOpenSink", "fileSink", "OpenSink", "core/datasink/file.go")
-		var flags, perm int64 = -1, -1
-		if fd := aggqFindMethod(p, "fileSink", "OpenSink"); fd != nil {
-			ast.Inspect(fd.Body, func(n ast.Node) bool {
-				c, ok := n.(*ast.CallExpr)
-				if ok && strings.HasSuffix(phoutSrc(t2, c.Fun), ".OpenFile") && len(c.Args) == 3 {
-					flags, _ = aggqConst(t2, p, c.Args[1])
-					perm, _ = aggqConst(t2, p, c.Args[2])
-				}
-				return true
-			})
+		flags, perm, nOpen := aggqOpenFlagsOf(t2, p, aggqFindMethod(p, "fileSink", "OpenSink"))
+		if nOpen != 1 {
+			flags = -1
 		}
 		if flags < 0 || perm < 0 {
-			t.errs = append(t.errs, "core/datasink/file.go: OpenSink does not call OpenFile(path, <const flags>, <const perm>)")
+			t.errs = append(t.errs, "core/datasink/file.go: OpenSink does not open its file exactly once through the afero file system with constant flags and permission")
 			flags, perm = 0, 0
 		}
 		fmt.Fprintf(&b, "/-- regenerated: the constant flag and permission arguments of `OpenFile` in `(*fileSink).OpenSink` -/\n")
@@ -690,6 +696,7 @@ func aggqExtra(t *tr) string {
 		aggqEmit(&b, t2, "phoutRun", "phoutAggregator", "Run", "core/aggregator/netsample/phout.go")
 		aggqEmit(&b, t2, "phoutReport", "phoutAggregator", "Report", "core/aggregator/netsample/phout.go")
 		aggqEmit(&b, t2, "newPhout", "", "NewPhout", "core/aggregator/netsample/phout.go")
+		aggqPhoutOpenFlags(&b, t2, p)
 		aggqEmit(&b, t2, "phoutHandle", "phoutAggregator", "handle", "core/aggregator/netsample/phout.go")
 		aggqEmit(&b, t2, "sampleAcquire", "", "Acquire", "core/aggregator/netsample/sample.go")
 		aggqEmit(&b, t2, "sampleRelease", "", "releaseSample", "core/aggregator/netsample/sample.go")
